@@ -12,6 +12,8 @@ import (
 	"go/types"
 	"math/big"
 
+	"golang.org/x/tools/go/packages"
+
 	"manticheck/internal/tables"
 )
 
@@ -38,17 +40,69 @@ func c15IntConst(info *types.Info, e ast.Expr) (*big.Int, bool) {
 	return new(big.Int).SetString(iv.ExactString(), 10)
 }
 
+// c15ConstDefs resolves a declared constant to its defining expression (and
+// the types.Info of the package that declares it). A guard limit that was
+// hoisted into a named constant — maxUnixSeconds = int64((maxTimestamp -
+// UUIDv1Epoch) / intervalsPerSecond) — is judged through that definition: its
+// VALUE (103072857660) is in no table, its derivation is.
+type c15ConstDefs func(obj *types.Const) (ast.Expr, *types.Info)
+
+// c15BuildConstDefs indexes every constant declaration (package level and
+// function local) of the module's packages. Specs that repeat the previous
+// expression implicitly (iota lists) have no expression of their own and stay
+// judged by value.
+func c15BuildConstDefs(pkgs []*packages.Package) c15ConstDefs {
+	type def struct {
+		e    ast.Expr
+		info *types.Info
+	}
+	idx := map[*types.Const]def{}
+	for _, pk := range pkgs {
+		if pk == nil || pk.TypesInfo == nil {
+			continue
+		}
+		info := pk.TypesInfo
+		for _, f := range pk.Syntax {
+			ast.Inspect(f, func(n ast.Node) bool {
+				gd, ok := n.(*ast.GenDecl)
+				if !ok || gd.Tok != token.CONST {
+					return true
+				}
+				for _, sp := range gd.Specs {
+					vs, ok := sp.(*ast.ValueSpec)
+					if !ok || len(vs.Values) != len(vs.Names) {
+						continue
+					}
+					for i, nm := range vs.Names {
+						if k, ok := info.Defs[nm].(*types.Const); ok {
+							idx[k] = def{vs.Values[i], info}
+						}
+					}
+				}
+				return false
+			})
+		}
+	}
+	return func(obj *types.Const) (ast.Expr, *types.Info) {
+		d := idx[obj]
+		return d.e, d.info
+	}
+}
+
 // c15ConstUses walks a function body. For every MAXIMAL constant
 // sub-expression it records the role given by its non-constant parent
 // (factor, divisor, addend, subtrahend, time.Date year, other); for the
 // leaves of constant expressions used in any other role (guard limits such as
 // (math.MaxInt64-epoch)/1e7) it records the leaves, so that a limit must be
-// spelled as a derivation from the unit table.
-func c15ConstUses(info *types.Info, body ast.Node) []c15Use {
+// spelled as a derivation from the unit table. A leaf that is a NAMED constant
+// whose value is not itself a table value is replaced by the leaves of its
+// defining expression (defs; transitively), so hoisting a derived limit into a
+// constant declaration changes nothing.
+func c15ConstUses(info *types.Info, body ast.Node, defs c15ConstDefs) []c15Use {
 	var out []c15Use
 	big100, big1000 := big.NewInt(100), big.NewInt(1000)
 
-	record := func(role string, e ast.Expr, negate bool) {
+	record := func(info *types.Info, role string, e ast.Expr, negate bool, via string) {
 		v, ok := c15IntConst(info, e)
 		if !ok {
 			return
@@ -77,28 +131,62 @@ func c15ConstUses(info *types.Info, body ast.Node) []c15Use {
 				return
 			}
 		}
-		out = append(out, c15Use{Role: role, Val: abs.String(), Pos: e.Pos(), Expr: types.ExprString(e)})
+		out = append(out, c15Use{Role: role, Val: abs.String(), Pos: e.Pos(), Expr: via + types.ExprString(e)})
+	}
+
+	// namedDef: e names a declared constant whose defining expression is known
+	constDef := func(info *types.Info, e ast.Expr) (ast.Expr, *types.Info) {
+		if defs == nil {
+			return nil, nil
+		}
+		var id *ast.Ident
+		switch x := e.(type) {
+		case *ast.Ident:
+			id = x
+		case *ast.SelectorExpr:
+			id = x.Sel
+		}
+		if id == nil {
+			return nil, nil
+		}
+		k, ok := info.Uses[id].(*types.Const)
+		if !ok {
+			return nil, nil
+		}
+		return defs(k)
 	}
 
 	// leaves of a constant expression in a non-arithmetic role
-	var leaves func(e ast.Expr)
-	leaves = func(e ast.Expr) {
+	var leavesIn func(info *types.Info, e ast.Expr, via string, depth int)
+	leavesIn = func(info *types.Info, e ast.Expr, via string, depth int) {
 		switch x := e.(type) {
 		case *ast.ParenExpr:
-			leaves(x.X)
+			leavesIn(info, x.X, via, depth)
 		case *ast.BinaryExpr:
-			leaves(x.X)
-			leaves(x.Y)
+			leavesIn(info, x.X, via, depth)
+			leavesIn(info, x.Y, via, depth)
 		case *ast.UnaryExpr:
-			leaves(x.X)
+			leavesIn(info, x.X, via, depth)
 		case *ast.CallExpr: // conversion of a constant
 			for _, a := range x.Args {
-				leaves(a)
+				leavesIn(info, a, via, depth)
 			}
-		case *ast.BasicLit, *ast.Ident, *ast.SelectorExpr:
-			record("other", e, false)
+		case *ast.BasicLit:
+			record(info, "other", e, false, via)
+		case *ast.Ident, *ast.SelectorExpr:
+			if v, ok := c15IntConst(info, e); ok && depth < 8 {
+				abs := new(big.Int).Abs(v).String()
+				if ok, _ := c15ValueAllowed(c15Use{Role: "other", Val: abs}); !ok {
+					if d, dinfo := constDef(info, e); d != nil {
+						leavesIn(dinfo, d, via+types.ExprString(e)+" = … ", depth+1)
+						return
+					}
+				}
+			}
+			record(info, "other", e, false, via)
 		}
 	}
+	leaves := func(e ast.Expr) { leavesIn(info, e, "", 0) }
 
 	isConst := func(e ast.Expr) bool {
 		tv, ok := info.Types[e]
@@ -112,7 +200,7 @@ func c15ConstUses(info *types.Info, body ast.Node) []c15Use {
 			if role == "other" {
 				leaves(e)
 			} else {
-				record(role, e, false)
+				record(info, role, e, false, "")
 				// the leaves must still be unit constants
 				inner := ast.Unparen(e)
 				if _, lit := inner.(*ast.BasicLit); !lit {
@@ -170,7 +258,7 @@ func c15ConstUses(info *types.Info, body ast.Node) []c15Use {
 			}
 			if fn := tables.StaticCallee(info, x); fn != nil && tables.IsPkgFunc(fn, "time", "Date") && len(x.Args) > 0 {
 				if isConst(x.Args[0]) {
-					record("year", x.Args[0], false)
+					record(info, "year", x.Args[0], false, "")
 				} else {
 					walk(x.Args[0])
 				}
